@@ -509,6 +509,10 @@ def next_psuedo_matches(state: TokenizerState) -> TokenInfo | None:
     start, end = match.span(match.lastgroup)
     spos, epos, state.pos = (state.lnum, start), (state.lnum, end), end
     token = state.line[start:end]
+    if token == ":=" and state.in_braces() and state.at_parenlev():
+        # f'{a:=5}': at the top level of a replacement field the colon starts the format spec ('=5')
+        end = start + 1
+        epos, state.pos, token = (state.lnum, end), end, ":"
 
     if match.lastgroup == "StringStart":
         quote = match.group("Quote") or '"'
